@@ -658,20 +658,26 @@ def gen_C12(rng, tier):
         base_lines = []
         for s in secs:
             base_lines += s + [""]
+        core = base_lines[:-1] if base_lines else []   # same line sequence in every eol variant
+        valid_family = bool(qs) or not secs
         variants = []
-        ref = gen.render_lines(base_lines, "\n", True)
+        ref = gen.render_lines(core, "\n", True)
         variants.append(("ref", ref, None))
         for eol in ("\n", "\r\n"):
             for fin in (True, False):
-                data = gen.render_lines(base_lines[:-1] if (base_lines and not fin) else base_lines, eol, fin)
-                variants.append(("eol", data, None))
-        # padding: extra blank lines before, between and after sections
+                if not fin and core and core[-1] == "":
+                    continue  # an unterminated empty last line is no line at all
+                variants.append(("eol", gen.render_lines(core, eol, fin), None))
+        # padding: extra blank lines before, between and after sections (only where the grammar is between sections)
         padded = [""] * rng.randint(0, 2)
-        for s in secs:
-            padded += s + [""] * rng.randint(1, 3)
+        if valid_family and not any(l in ("junk", "3\t4", "chain x") for l in core):
+            for s in secs:
+                padded += s + [""] * rng.randint(1, 3)
+        else:
+            padded += core
         variants.append(("pad", gen.render_lines(padded, rng.choice(["\n", "\r\n"]), True), None))
         # chunk schedules
-        data = gen.render_lines(base_lines, rng.choice(["\n", "\r\n"]), rng.random() < 0.5)
+        data = gen.render_lines(core, rng.choice(["\n", "\r\n"]), (rng.random() < 0.5) or bool(core and core[-1] == ""))
         for mode in ("bytes", "two", "two", "rand", "rand"):
             if mode == "bytes" and len(data) > 400:
                 continue
@@ -809,6 +815,8 @@ def gen_C13(rng, tier):
             canon = canon_data(line)
         else:
             line, canon = b"", b""
+        if line == b"":
+            canon = b""
         try:
             line.decode("utf-8")
         except UnicodeDecodeError:
